@@ -9,7 +9,7 @@ THEOREMS = ["IsoVerif.Props.C21.C21_maps", "IsoVerif.Props.C21.C21_effective", "
             "IsoVerif.Props.C21.C21_stale_characterised"]
 HARNESS = ("hx_lsp", {"HX_ENGINE": "lspstate"})
 DRIVER = "drv_lsp"
-CASES = {"quick": 600, "thorough": 20000}
+CASES = {"quick": 600, "thorough": 10000}
 TECHNIQUE = ("Lean 4 theorems by induction over notification/edit/request histories on a model of the server's disk map, open-buffer map and the memo layer over them; "
              "correspondence: a real LspState is driven through the same histories (didOpen/didChange/didClose handlers, update_sources for disk edits) and after every step "
              "every answer is compared with a freshly constructed real server")
